@@ -60,7 +60,8 @@ def complete_document(rng, mode, depth=1, allow_defs=True):
     for _ in range(rng.randint(1, 4)):
         k = rng.random()
         if k < 0.55:
-            parts.append(g.block(depth, frozenset())['src'])
+            b = g.block(depth, frozenset())
+            parts.append(b['src'] + ('\n\n\n' + plain(rng) if b['kind'] == 'list' else ''))
         elif k < 0.65:
             # two blank lines end the list (one would let a following '>' or indented line attach to the last item)
             parts.append('- ' + plain(rng) + '\n- ' + plain(rng) + '\n\n\n' + plain(rng))
@@ -86,7 +87,7 @@ class C14(Prop):
     def cases(self, ctx):
         rng = ctx.rng
         while True:
-            mode = rng.choice([None, 0, 0, 1, 3, 8, 9, 15])
+            mode = rng.choice([None, 0, 0] + list(range(16)))
             m = mode or 0
             parts = [complete_document(rng, m) for _ in range(rng.choice([2, 2, 3]))]
             for k in range(len(parts) - 1):
@@ -99,7 +100,7 @@ class C14(Prop):
                     parts[k + 1] = rng.choice(['..\n%s *b* & {m1}\n..', '""\n%s *b*\n""', '``\n- one *%s*\n- two\n``', '%s *b* & {m1}',
                                                '  indented *%s*', '> %s *b*', '# %s *b*', '- %s *b*\n\n', '<div>%s</div>',
                                                '--\n%s *b* {m1}\n--']).replace('%s', w) + '\n\n' + parts[k + 1]
-            yield {'parts': parts, 'safeMode': mode, 'htmlReplacement': rng.choice([None, '[R]'])}
+            yield {'parts': parts, 'safeMode': mode, 'htmlReplacement': rng.choice([None, '[R]', '<i>gone</i>'])}
 
     def execute(self, case, ctx, res):
         parts = case['parts']
@@ -313,6 +314,10 @@ class C19(Prop):
             if f == 'unterminated':
                 name, block = rng.choice([('code', '```\ncode'), ('code', '--\ncode'), ('quote', '""\nquote'), ('division', '..\ndiv'),
                                           ('comment', '/*\ncomment')])
+                if rng.random() < 0.35:
+                    block = block.split('\n')[0]           # the opening delimiter is the last line of the document
+                if rng.random() < 0.25:
+                    block = '..box\n%s\n..' % block         # ... or of an enclosing (closed) container
                 parts.append(block)
                 expect = 'unterminated %s block' % name
             elif f == 'undefined-macro':
@@ -685,6 +690,31 @@ class C17(Prop):
         while True:
             mode = rng.choice([0, 1])
             head = "{m1} = 'MACRO'\n\n"
+            if rng.random() < 0.15:
+                # an escaped element inside the caption / alternate text of a link or image (text that is expanded again
+                # when the replacement is rendered)
+                w, w2 = rng.choice(PLAIN), rng.choice(PLAIN)
+                u = rng.choice(['http://example.com/', '#a', 'x.png'])
+                e = rng.choice(['*%s*' % w2, '_%s_' % w2, '`%s`' % w2, '**%s**' % w2, '~~%s~~' % w2, '{m1}', '{m1|%s}' % w2, '&amp;', '&#169;',
+                                'http://b.org/x'])
+                form = rng.randrange(5)
+                if form == 0:
+                    src, exp = '[%s \\%s %s](%s)' % (w, e, w2, u), '<a href="%s">%s %s %s</a>' % (u, esc(w), esc(e), esc(w2))
+                elif form == 1:
+                    src, exp = '^[\\%s](%s)' % (e, u), '<a href="%s" target="_blank">%s</a>' % (u, esc(e))
+                elif form == 2:
+                    src, exp = '<http://e.com/|%s \\%s>' % (w, e), '<a href="http://e.com/">%s %s</a>' % (esc(w), esc(e))
+                elif form == 3:
+                    e = rng.choice(['{m1}', '{m1|%s}' % w2])
+                    src, exp = '%s <image:x.png|\\%s>' % (w, e), '%s <img src="x.png" alt="%s">' % (esc(w), esc(e))
+                else:
+                    e = rng.choice(['{m1}', '{m1|%s}' % w2])
+                    src, exp = '%s ![\\%s](x.png)' % (w, e), '%s <img src="x.png" alt="%s">' % (esc(w), esc(e))
+                if rng.random() < 0.3:
+                    yield {'src': head + '- ' + src, 'expected': '<ul><li>%s</li></ul>' % exp, 'safeMode': mode, 'n': 2, 'line_level': False}
+                else:
+                    yield {'src': head + src, 'expected': '<p>%s</p>' % exp, 'safeMode': mode, 'n': 2, 'line_level': False}
+                continue
             if rng.random() < 0.6:
                 n = rng.randint(1, 8)
                 parts_s, parts_e = [], []
